@@ -8,7 +8,13 @@ Cases
 Sources of cases
   ObjMeshGen  (TLC BFS / -simulate)  mesh lists, lattice values; design checks on the ObjImpl models
   ObjTextGen  (TLC BFS / -simulate)  g/usemtl/f arrangements; design checks on the ObjImpl models
-  vh obj-random (seeded)             float32-fidelity mesh lists, long random texts
+  vh obj-random (seeded)             float32-fidelity mesh lists (incl. float32 boundary values), long random texts
+  ObjStlSizes (TLC)                  size profiles: a mesh / group whose vertex, face or corner count is m*T-1, m*T,
+                                     m*T+1 for round numbers T, placed first / last / in the middle / twice; the
+                                     harness draws the values from the seed
+Every case is run with one reader variant and one writer variant (harness/objstl/iomodes.go: plain, one byte per
+Read, half reads, data together with EOF, ragged, 1000-byte chunks, obj.Load of a file; bytes.Buffer, a bare
+io.Writer, a 16-byte bufio.Writer, obj.Save for a single unnamed mesh); the case records which.
 """
 import json
 import os
@@ -17,8 +23,45 @@ import random
 from vlib import core
 
 
+# reader / writer variants by case position (lengths 16 and 5 are coprime: every pair occurs)
+READER_ROT = [0, 1, 2, 0, 3, 4, 0, 5, 6, 0, 7, 8, 0, 9, 10, 11]
+WRITER_ROT = [0, 1, 0, 2, 3]
+def assign_io(cases, seed):
+    for i, c in enumerate(cases):
+        c["cid"] = i        # what the harness varies with the case number stays the same in a replay
+        if "io" not in c:
+            c["io"] = READER_ROT[(seed + i) % len(READER_ROT)]
+            c["wio"] = WRITER_ROT[(seed * 3 + i) % len(WRITER_ROT)]
+            c["rep"] = 2 if (seed + i) % 7 == 3 else 1      # every 7th case calls everything twice
+
+
+def sized_profiles(ctx, cfg):
+    """Size profiles from specs/ObjStlSizes.tla (TLC enumerates them and checks the coverage ASSUMEs).
+    quick: every profile the specification marks as core plus the rotation class of the seed; thorough: all."""
+    d = ctx.scratch("gen-sizes-" + cfg.replace(".cfg", ""))
+    r = core.run_tlc(d, "ObjStlSizes", cfg, workers=2, timeout=600, heap="2g")
+    if r.rc != 0:
+        raise core.Infra("ObjStlSizes/%s violates its own property %s (spec bug)" % (cfg, r.violated))
+    ctx.add_tlc(r)
+    prof = [v for v in r.values if isinstance(v, dict) and v.get("tag") == "sized"]
+    if not prof:
+        raise core.Infra("ObjStlSizes/%s printed no profile" % cfg)
+    prof.sort(key=lambda v: json.dumps(v, sort_keys=True))      # TLC's print order depends on its workers
+    nrot = 1 + max(v["rot"] for v in prof)
+    sel = [v for v in prof if ctx.tier != "quick" or v["core"] or v["rot"] == ctx.seed % nrot]
+    out = []
+    for i, v in enumerate(sel):
+        c = {k: x for k, x in v.items() if k not in ("w", "rot", "core")}
+        c["weight"] = v["w"]
+        for key in ("seeded", "text"):
+            if key in c:
+                c[key]["seed"] = ctx.seed * 1000003 + i
+        out.append(c)
+    return r, out, len(prof)
+
+
 def _key(c):
-    return json.dumps({k: c.get(k) for k in ("k", "meshes", "gen", "seeded")}, sort_keys=True)
+    return json.dumps({k: c.get(k) for k in ("k", "meshes", "gen", "seeded", "text")}, sort_keys=True)
 
 
 def _tlc_gen(ctx, name, module, cfg, *, simulate=None, depth=None, workers=None, timeout=900):
@@ -90,11 +133,18 @@ def collect_cases(ctx, vh):
     rnd = core.read_ndjson(os.path.join(d, "r.ndjson"))
     notes["random_cases"] = len(rnd)
     cases += rnd
-    random.Random(seed).shuffle(cases)      # lines are independent; shuffling balances the judge's shards
+    # (4) size profiles (round 2): vertex / face / corner counts around multiples of round numbers
+    r, sized, nprof = sized_profiles(ctx, "ObjStlSizesObjQuick.cfg" if tier == "quick" else "ObjStlSizesObjBig.cfg")
+    notes["size_profiles_enumerated"] = nprof
+    notes["size_profiles_run"] = len(sized)
+    notes["size_profile_sizes"] = sorted({c["size"] for c in sized})
+    cases += sized
+    random.Random(seed).shuffle(cases)      # lines are independent; the judge balances its shards by weight
     # text style (number format, blanks, line ends, comments) varies with seed and position
     for i, c in enumerate(cases):
         if c["k"] == "ld" and "style" not in c:
             c["style"] = (seed * 7919 + i * 31) % 100003
+    assign_io(cases, seed)
     return cases, notes
 
 
@@ -115,13 +165,22 @@ def execute_and_judge(ctx, vh, cases, name="main", keep=None):
     cp = os.path.join(d, "cases.ndjson")
     core.write_ndjson(cp, cases)
     tp = os.path.join(d, "trace.ndjson")
-    args = ["obj-exec", "-in", cp, "-out", tp]
+    args = ["obj-exec", "-in", cp, "-out", tp, "-budget", "300" if ctx.tier == "quick" else "2400"]
     if keep:
         os.makedirs(keep, exist_ok=True)
         args += ["-keep", keep]
     core.run_vh(vh, args, timeout=1800)
     with open(tp) as f:
         raw = f.readlines()
+    stopped = None
+    if raw and raw[-1].startswith('{"k":"stop"'):
+        # the harness ended the run early (results far larger than their inputs account for, or the code
+        # under test slower by orders of magnitude): the lines before the stop line are judged; if none of
+        # them is rejected this is an infrastructure failure, never a pass (see run_family)
+        stopped = json.loads(raw.pop())
+        core.log("[exec] harness stopped after %d of %d cases: %s" % (stopped["done"], len(cases), stopped["why"]))
+        del cases[stopped["done"]:]
+        ctx.extra["stopped_early"] = stopped
     if len(raw) != len(cases):
         raise core.Infra("obj-exec wrote %d lines for %d cases" % (len(raw), len(cases)))
     findings, ex = judge_lines(ctx, name, raw)
@@ -131,13 +190,37 @@ def execute_and_judge(ctx, vh, cases, name="main", keep=None):
 
 
 def judge_lines(ctx, name, raw, module="TraceObj"):
-    """Validate ndjson lines (one case per line) with specs/<module>.tla, sharded.
-    Returns (findings [{pred, case, why}], exercise counters summed over the shards)."""
+    """Validate ndjson lines (one case per line, lines are independent) with specs/<module>.tla.
+    The lines are spread over TLC processes (NCPU at a time) by WEIGHT (bytes of the line, a good measure of
+    the judge's work), heaviest first onto the lightest shard, so that a few large cases do not make
+    one shard the straggler.  Returns (findings [{pred, case, why}], exercise counters summed)."""
+    from concurrent.futures import ThreadPoolExecutor
     findings, ex = [], {}
-    results = core.validate_sharded(ctx, name, module, module + ".cfg", raw, timeout=3000,
-                                    is_boundary=lambda ln: True)
-    base = 0
-    for sh, r in results:
+    # at most NCPU shards run at a time; a shard holds at most ~64 MB of trace (TLC needs about 20x the
+    # bytes of a trace as heap: 3 GB per process, 6 processes - the machine is shared)
+    total = sum(len(ln) for ln in raw)
+    nsh = max(1, min(max(min(core.NCPU, 16), -(-total // 64_000_000)), 96, len(raw)))
+    shards = [[] for _ in range(nsh)]           # lists of case numbers
+    load = [0] * nsh
+    for i in sorted(range(len(raw)), key=lambda i: -len(raw[i])):
+        k = load.index(min(load))
+        shards[k].append(i)
+        load[k] += len(raw[i]) + 2000           # a small per-line cost keeps short lines spread as well
+    shards = [sorted(sh) for sh in shards if sh]
+    heap = "3g" if max(load) < 100e6 else "6g"        # only a single line of > 100 MB gets there
+
+    def one(k):
+        d = ctx.scratch("%s-shard%02d" % (name, k))
+        with open(os.path.join(d, "trace.ndjson"), "w") as f:
+            f.write("".join(raw[i] for i in shards[k]))
+        return core.run_tlc(d, module, module + ".cfg", timeout=3000, heap=heap, workers=1)
+
+    with ThreadPoolExecutor(max_workers=min(len(shards), core.NCPU)) as pool:
+        results = list(pool.map(one, range(len(shards))))
+    for sh, r in zip(shards, results):
+        ctx.add_tlc(r)
+        if r.postcondition_failed or r.distinct != len(sh) + 1:
+            raise core.Infra("trace shard of %s not fully consumed (%d states for %d lines)" % (name, r.distinct, len(sh)))
         got_ex = False
         for v in r.values:
             if not isinstance(v, dict):
@@ -147,12 +230,12 @@ def judge_lines(ctx, name, raw, module="TraceObj"):
                 for k, n in v["ex"].items():
                     ex[k] = ex.get(k, 0) + n
             elif "bad" in v:
-                idx = base + v["l"] - 1
+                idx = sh[v["l"] - 1]
                 for pred in v["bad"]:
                     findings.append({"pred": pred, "case": idx, "why": sorted(v.get("why", []))})
         if not got_ex:
             raise core.Infra("%s shard printed no exercise counters" % module)
-        base += len(sh)
+    findings.sort(key=lambda f: (f["case"], f["pred"]))
     return findings, ex
 
 
@@ -185,6 +268,8 @@ def nontrivial(case):
         ms = case["meshes"]
         kinds = {(bool(m["uv"]), bool(m["nrm"])) for m in ms}
         return len(ms) >= 2 and (len(kinds) >= 2 or any(len(m["mats"]) >= 1 for m in ms))
+    if case.get("text"):
+        return len(case["text"]["groups"]) >= 2
     kinds = [s["t"] for s in case["gen"]]
     return kinds.count("f") >= 2 and ("g" in kinds or "usemtl" in kinds)
 
@@ -243,19 +328,25 @@ def run_family(ctx, prefix="C05"):
     ctx.extra["exercised"] = {k: ex.get(k, 0) for k in PREDICATES}
     ctx.extra["strict_obj_material_leaks"] = ex.get("strictLeak", 0)
     ctx.extra["cases_by_kind"] = {k: sum(1 for c in cases if c["k"] == k) for k in ("wr", "ld")}
+    ctx.extra["cases_by_reader_variant"] = {str(m): sum(1 for c in cases if c["io"] == m) for m in sorted(set(READER_ROT))}
+    ctx.extra["cases_by_writer_variant"] = {str(m): sum(1 for c in cases if c["wio"] == m) for m in sorted(set(WRITER_ROT))}
     ctx.extra["cases_by_tag"] = {}
     for c in cases:
         ctx.extra["cases_by_tag"][c.get("tag", "")] = ctx.extra["cases_by_tag"].get(c.get("tag", ""), 0) + 1
     ctx.nontrivial = sum(1 for c in cases if nontrivial(c))
     ctx.rule = ("cases: TLC BFS of ObjMeshGen (all single meshes, all pairs%s) and ObjTextGen (all g/usemtl/f "
-                "arrangements to the depth bound), TLC -simulate walks, seeded recorder (float32 mesh lists, long texts); "
-                "distinct by mesh list / statement list; non-trivial: >=2 meshes differing in attributes or carrying "
-                "materials, or a text with >=2 faces and a g or usemtl"
-                % (", triples sampled" if ctx.tier == "quick" else ", all triples"))
+                "arrangements to the depth bound), TLC -simulate walks, seeded recorder (float32 mesh lists incl. boundary "
+                "values, long texts), TLC-enumerated size profiles (a mesh / group with m*T-1, m*T, m*T+1 vertices or faces "
+                "first, last, in the middle or twice in a list, sizes up to %d%s); every case with one of 12 reader and 4 "
+                "writer variants; distinct by mesh list / statement list; non-trivial: >=2 meshes differing in attributes "
+                "or carrying materials, or a text with >=2 faces and a g or usemtl"
+                % (", triples sampled" if ctx.tier == "quick" else ", all triples",
+                   max([c["size"] for c in cases if c.get("tag") == "sized"] + [0]),
+                   ", the heavier ones rotating with the seed" if ctx.tier == "quick" else ""))
     for c in (cases[1], cases[-1]):
         ctx.sample({"k": c["k"], "tag": c.get("tag"),
                     "shape": [(m["name"], len(m["idx"]) // 3, bool(m["uv"]), bool(m["nrm"]), len(m["mats"])) for m in c["meshes"]]
-                    if c.get("meshes") else (c.get("seeded") or [s["t"] for s in c["gen"]][:30])})
+                    if c.get("meshes") else (c.get("seeded") or c.get("text") or [s["t"] for s in c["gen"]][:30])})
     per_sig, aux = {}, {}
     for f in findings:
         if f["pred"].startswith("Harness."):
@@ -268,7 +359,9 @@ def run_family(ctx, prefix="C05"):
         per_sig[sig] = per_sig.get(sig, 0) + 1
         if per_sig[sig] > 3:        # a few replay files per signature are enough
             continue
-        what = "%s rejected a %s %s case (%s)" % (f["pred"], c.get("tag", ""), c["k"], ",".join(f["why"]) or "see replay")
+        what = "%s rejected a %s %s case (%s; reader variant %d, writer variant %d%s)" % (
+            f["pred"], c.get("tag", ""), c["k"], ",".join(f["why"]) or "see replay", c["io"], c["wio"],
+            "; size profile %s %s %s" % (c["size"], c["shape"], c["place"]) if c.get("tag") == "sized" else "")
         ctx.violation(sig, what, {"family": "obj", "case": c})
     ctx.extra["rejections_by_signature"] = per_sig
     ctx.extra["aux_flags_beyond_statement"] = aux
@@ -279,6 +372,8 @@ def run_family(ctx, prefix="C05"):
     idle = [p for p in PREDICATES if ex.get(p, 0) == 0]
     known = {k["signature"] for k in core.load_known() if k.get("property") == ctx.pid and k.get("status") == "open"}
     fresh = [v for v in ctx.violations if v["signature"] not in known]
+    if ctx.extra.get("stopped_early") and not fresh:
+        raise core.Infra("the harness stopped early (%s) but no executed case was rejected" % ctx.extra["stopped_early"]["why"])
     if idle and not fresh:
         raise core.Infra("predicates never exercised: %s" % idle)
     if ctx.tier == "thorough" and not fresh:
